@@ -183,8 +183,13 @@ func (p *parser) parseBool(n *yaml.Node) *Bool {
 		}
 	}
 
+	// Not only "true" but also "True" and "TRUE" are boolean values of YAML
+	var b bool
+	if err := n.Decode(&b); err != nil {
+		b = n.Value == "true"
+	}
 	return &Bool{
-		Value: n.Value == "true",
+		Value: b,
 		Pos:   posAt(n),
 	}
 }
